@@ -537,9 +537,7 @@ def drive_pass(rd, src, flt, route):
                     break
                 got(c)
         elif route == "list":
-            it = iter(rd)
-            for c in iter(lambda: next(it, None), None):
-                got(c)
+            list(map(got, rd))                 # the iteration is made by map / list, not by a for statement
         elif route == "indicator":
             for c in Indicator(rd, stream=io.StringIO()):
                 got(c)
